@@ -47,6 +47,12 @@ REG = {
             "passes, set_epoch announcements, stop) must equal the suffix of the reference run; refusals (NotImplementedError / "
             "assert) are counted; uninterrupted implementation run validated against the model in the same case",
             "DESIGN.md §3 C06", TRUST),
+    "C16": ("exploration", "Hypothesis-generated label layouts and wrapper arguments vs. coherence/range/purity/reproducibility predicates",
+            "10 facets (one per label-rewriting wrapper): bulk accessor vs per-sample accessor, labels within getshape_class or -1, "
+            "x/len/root labels untouched (roots returning a new list, their internal list, ndarray, tensor), equal labels under two "
+            "global RNG states, documented mapping where one exists (all-gather permutation, pseudo-label argmax/threshold/top-k, "
+            "overwrite table, semi count), encodings non-negative / sum 1 / argmax preserved",
+            "DESIGN.md §3 C16", TRUST + "; encoding wrappers: coherence checked up to decoding (stated in DESIGN.md)"),
 }
 
 NOT_YET = "check not built yet in this session (planned, see DESIGN.md §3)"
